@@ -752,7 +752,8 @@ func c04Result(li int, arg string, svc uint32, out []byte, err error, cancel boo
 
 // stress: goroutines x calls over the links; returns oracle failures
 // pad (nil: none): how many bytes the argument of each call and Post is padded with
-func (h *c04Harness) stress(res *hx.Result, rng *hx.Rng, links []*c04Link, ngor, ncalls int, tag string, pad func(*hx.Rng) int) {
+// Returns false when some call did not return within the deadline.
+func (h *c04Harness) stress(res *hx.Result, rng *hx.Rng, links []*c04Link, ngor, ncalls int, tag string, pad func(*hx.Rng) int) (allReturned bool) {
 	var wg sync.WaitGroup
 	var mu sync.Mutex
 	var results []c04CallResult
@@ -806,7 +807,7 @@ func (h *c04Harness) stress(res *hx.Result, rng *hx.Rng, links []*c04Link, ngor,
 	case <-done:
 	case <-time.After(30 * time.Second):
 		res.Fail("call-without-outcome", fmt.Sprintf("stress %s: %d goroutines x %d calls over %d connection(s): some call did not return within 30 s", tag, ngor, ncalls, len(links)))
-		return
+		return false
 	}
 	// let cancelled calls' frames drain, then flush the mailboxes
 	for _, l := range links {
@@ -898,6 +899,7 @@ func (h *c04Harness) stress(res *hx.Result, rng *hx.Rng, links []*c04Link, ngor,
 		res.Dist("mixed-sizes:" + links[0].kind)
 	}
 	res.Dist(fmt.Sprintf("stress:%dconn-%dgor", len(links), ngor))
+	return true
 }
 
 func c04SizeClass(n int) string {
@@ -944,6 +946,7 @@ func (h *c04Harness) mixedSizes(res *hx.Result, rng *hx.Rng, cases *hx.Cases, ti
 	if tier == "thorough" {
 		rounds = 12
 	}
+	hung := 0
 	for run := 0; run < rounds*len(kinds); run++ {
 		kind := kinds[run%len(kinds)]
 		nl := 1
@@ -967,7 +970,17 @@ func (h *c04Harness) mixedSizes(res *hx.Result, rng *hx.Rng, cases *hx.Cases, ti
 		}
 		ngor := 3 + rng.Intn(4)
 		ncalls := 12 + rng.Intn(12)
-		h.stress(res, rng, links, ngor, ncalls, fmt.Sprintf("mix%d", run), c04PadSize)
+		if !h.stress(res, rng, links, ngor, ncalls, fmt.Sprintf("mix%d", run), c04PadSize) {
+			// calls that never return have been reported; each further run would wait for its
+			// deadline again
+			if hung++; hung >= 2 {
+				h.note(fmt.Sprintf("mixed sizes: stopped after run %d, calls did not return in two runs", run))
+				for _, l := range links {
+					l.close()
+				}
+				return
+			}
+		}
 		for li, l := range links {
 			l.drain()
 			if kind == "bytes" {
